@@ -626,3 +626,36 @@ func TestF63_FailedResponseHookLeavesTheRequestConfigured(t *testing.T) {
 		t.Errorf("retry with the same request: server saw %q, want \"acme|1\"", got)
 	}
 }
+
+// F64 (C11): a negative index in a bracketed key of a slice-of-struct field makes gofiber/schema index a reflect slice
+// out of range; nothing between the binder and fasthttp recovers, so one request takes the process down.
+func TestF64_NegativeSliceIndexIsAnErrorNotAPanic(t *testing.T) {
+	type post struct {
+		Title string `query:"title" form:"title"`
+	}
+	type in struct {
+		Posts []post `query:"posts" form:"posts"`
+	}
+	for _, q := range []string{"posts[-1][title]=x", "posts[-2][title]=x", "posts.-1.title=x"} {
+		app := fiber.New()
+		var bindErr error
+		panicked := false
+		app.Get("/", func(c fiber.Ctx) error {
+			defer func() {
+				if r := recover(); r != nil {
+					panicked = true
+				}
+			}()
+			var v in
+			bindErr = c.Bind().Query(&v)
+			return nil
+		})
+		rc := newRC("GET", "/?"+q)
+		app.Handler()(rc)
+		if panicked {
+			t.Errorf("query %q: the binder panicked", q)
+		} else if bindErr == nil {
+			t.Errorf("query %q: no error reported", q)
+		}
+	}
+}
